@@ -9,16 +9,19 @@ VERIF = os.path.dirname(os.path.dirname(os.path.abspath(__file__)))
 CHECKS = {
     "C06": dict(
         engine="scripted-loop",
-        technique="TLC model checking of AdaptiveLoop.tla + replay of TLC behaviours through the real loop (spec->code) + TLC trace validation of real solves (code->spec)",
+        technique="TLC model checking of AdaptiveLoop.tla + replay of TLC behaviours through the real loop (spec->code) + TLC trace validation of real solves (code->spec) + Apalache inductive invariant of the refined abstraction LoopGeometry.tla",
         text=(
             "TLC explores every accept/reject history of the explicit TLA+ model of the rejection loop, the "
             "checkpoint scan, both controllers, clipping and the three-way interpolation switch (exhaustive within "
             "the attempt bound; invariants, action properties and termination under fairness). The model is bound to "
             "the implementation by replaying TLC-generated behaviours through the real RejectionLoop / "
             "solve_adaptive_save_at / terminal-values / save-every-step / fixed-grid drivers and the real "
-            "controllers with a scripted solver, comparing every event exactly (dyadic arithmetic)."
+            "controllers with a scripted solver, comparing every event exactly (dyadic arithmetic). The save_at "
+            "geometry (no extrapolation, reports at their checkpoint, clip never overshoots) is additionally proved "
+            "for every layout/eps/attempt count by an inductive invariant of spec/LoopGeometry.tla (Apalache), which "
+            "AdaptiveLoop.tla refines (checked by TLC on every save_at configuration)."
         ),
-        design_ref="DESIGN.md 3.1, 4 (C06)",
+        design_ref="DESIGN.md 3.1, 4 (C06), 11.2",
         note=(
             "Trusted: TLC; the 40-line scripted solver/estimator mirrors SInit/Step/InterpFwd/InterpAtT1 of the spec. "
             "Bounded: <= MaxAtt attempts, curated layouts/profiles/controller parameters with integer exponents; "
